@@ -5,9 +5,11 @@ set -e
 cd "$(dirname "$0")"
 export GOFLAGS=-mod=mod GOPROXY=off GOSUMDB=off GOTOOLCHAIN=local
 mkdir -p bin .work evidence replays
-cp /repo/go.sum harness/go.sum
+REPO="${VERIF_REPO:-/repo}"
+cp "$REPO/go.sum" harness/go.sum
+[ "$REPO" = /repo ] || (cd harness && go mod edit -replace github.com/scrapli/scrapligo="$REPO")
 (cd gen && go build -o ../bin/gen .)
-bin/gen -repo /repo -out coq/theories/Generated.v -inv .work/inventory.json
+bin/gen -repo "$REPO" -out coq/theories/Generated.v -inv .work/inventory.json
 (cd coq && coq_makefile -f _CoqProject -o Makefile >/dev/null 2>&1 && timeout 3000 make -j16 2>&1 | grep -v Warning | tail -40)
 (cd coq/extract && coqc -Q ../theories Scrapli Extract.v >/dev/null 2>&1 && ocamlfind ocamlopt -w -a model.mli model.ml main.ml -o runner)
 (cd harness && go build -tags verif -o ../bin/harness ./cmd/harness)
